@@ -7,6 +7,8 @@
 (*   {"e":"rp","rerr":bool,"perr":bool,"in":{ne,texts,attrs},"out":{ne,texts,attrs}}          *)
 (*        a built tree of ordinary elements, rendered and parsed again: element count and    *)
 (*        text / attribute values in document order, before and after                        *)
+(*   {"e":"et","name":[..],"s":[..],"toks":[tokens]}                                         *)
+(*        the tokens of "<name>" EscapeString(s) "</name>" for an ordinary element name       *)
 (*   {"e":"dlv","w":[tokens],"c":[tokens],"pad":n,"boundary":b,"chunk":k}                     *)
 (*        all tokens of an input delivered whole (w) and delivered in bounded reads and / or  *)
 (*        behind a padding comment of n bytes of data (c): delivery independence              *)
@@ -23,11 +25,12 @@ TEsc == Line.e = "esc" /\ EscapeRoundTrip(Line.s, Line.o, Line.u)
 TTok == Line.e = "tok" /\ TokenRoundTrip(Line.a, Line.n, Line.b)
 TRp  == Line.e = "rp" /\ ~Line.rerr /\ ~Line.perr /\ RenderParseOK(Line.in, Line.out)
 
+TEt  == Line.e = "et" /\ EscTokOK(Line.name, Line.s, Line.toks)
 TDlv == Line.e = "dlv" /\ DeliveryIndependent(Line.w, Line.c, Line.boundary > 0, Line.pad)
 
 TNext == /\ l <= Meta.ends[cur]
          /\ l' = l + 1 /\ cur' = cur
-         /\ (TEsc \/ TTok \/ TRp \/ TDlv)
+         /\ (TEsc \/ TTok \/ TRp \/ TDlv \/ TEt)
 TSpec == TInit /\ [][TNext]_tvars
 Mark == HighWater(cur, l)
 =============================================================================
